@@ -124,7 +124,7 @@ def render_pmodule(root: Path, tasks: list[dict], version: int) -> str:
                 f"    verif_rt.gen_begin(ROOT, {i})",
                 f"    for _f in sorted({fl}, key=verif_rt._nid):",
                 f"        _child(verif_rt._nid(_f) - 10000, _f, {bool(t.get('two_stage'))})",
-                f"    verif_rt.gen_log(ROOT, {i}, 'F')",
+                f"    verif_rt.gen_end(ROOT, {i}, VERSION, {dl}, {fl}, {pl})",
             ]
         else:
             lines.append(f"    verif_rt.pbody(ROOT, {i}, VERSION, {dl}, {fl}, {pl}, pdir={pdir}, clears={bool(t.get('clears'))})")
